@@ -12,6 +12,21 @@ import (
 // query/*: query resources (C13)
 // ---------------------------------------------------------------------------
 
+// derivedDelete marks the resource name as deleted when the outcome is
+// delivered: a system.notFound answer makes the gateway derive a delete event
+// (context of the after-delete known finding).
+func derivedDelete(w *mc.World, name string, o mc.Outcome) mc.Outcome {
+	d := o.Data
+	o.Data = func() []byte {
+		w.Svc.Deleted[name] = true
+		if d != nil {
+			return d()
+		}
+		return nil
+	}
+	return o
+}
+
 func queryMenu(w *mc.World, r *mc.Req) []mc.Outcome {
 	if strings.HasPrefix(r.Subject, "_QE_") {
 		f := struct{ name string }{"test.q"}
@@ -35,7 +50,7 @@ func queryMenu(w *mc.World, r *mc.Req) []mc.Outcome {
 			{Name: "model", Data: func() []byte { return w.Svc.QueryAnswer(f.name, q, "model") }},
 			{Name: "events", Data: func() []byte { return w.Svc.QueryAnswer(f.name, q, "events") }},
 			lie(mc.Outcome{Name: "empty", Data: func() []byte { return w.Svc.QueryAnswer(f.name, q, "empty") }}),
-			lie(mc.ResErr("system.internalError")), lie(mc.ResErr("system.notFound")), lie(mc.Timeout()),
+			lie(mc.ResErr("system.internalError")), derivedDelete(w, f.name, lie(mc.ResErr("system.notFound"))), lie(mc.Timeout()),
 			lie(mc.Raw("noevents", `{"result":{}}`)),
 		}
 	}
@@ -253,6 +268,14 @@ func thrScenarios(tier string) []*mc.Scenario {
 		out = append(out, sc)
 	}
 	return out
+}
+
+// quickBound: full bound for the main variant, one deviation less in quick for the others.
+func quickBound(main bool) map[string]int {
+	if main {
+		return map[string]int{"quick": 2, "thorough": 3}
+	}
+	return map[string]int{"quick": 1, "thorough": 3}
 }
 
 // noResetWindow holds when no reset re-fetch can be under way: the gateway is
@@ -494,12 +517,39 @@ func gcScenarios(tier string) []*mc.Scenario {
 			})
 		}
 	}
+	// a child reached over two paths from the released root while a loading
+	// parent references it (the collector visits it twice)
+	for _, v := range []string{latest, ""} {
+		v := v
+		tag := v
+		if v == "" {
+			tag = "legacy"
+		}
+		out = append(out, &mc.Scenario{
+			Name: "gc/diamond-loading/" + tag, Props: []string{"C02"}, Monitors: allMons(), Bound: quickBound(v == latest),
+			Init: func(w *mc.World) {
+				s := w.Svc
+				s.Model("test.a", "l", ref("test.b"), "r", ref("test.c"), "d", ref("test.d"))
+				s.Model("test.b", "d", ref("test.d"))
+				s.Collection("test.c", ref("test.d"), ref("test.d"))
+				s.Model("test.d", "n", `0`, "e", ref("test.e"))
+				s.Model("test.e", "n", `0`)
+				s.Model("test.f", "d", ref("test.d"), "s", ref("test.s"))
+				s.Model("test.s", "n", `0`)
+				s.Collection("test.g", ref("test.e"), ref("test.s"))
+			},
+			Conns: []mc.ConnSpec{conn(v, req("subscribe.test.a", 0), req("subscribe.test.f", 1), req("unsubscribe.test.a", 2), req("subscribe.test.g", 2), req("unsubscribe.test.f", 3))},
+			Threads: []mc.Thread{{Name: "svc", Ops: []mc.Op{
+				op("d.n=1", 3, func(w *mc.World) { w.Svc.Change("test.d", "n", `1`) }),
+			}}},
+		})
+	}
 	// references held through collections: add of an already sent child,
 	// removal while a loading parent references it
 	for _, v := range []string{latest, "1.2.0"} {
 		v := v
 		out = append(out, &mc.Scenario{
-			Name: "gc/collection-refs/" + v, Props: []string{"C02"}, Monitors: allMons(),
+			Name: "gc/collection-refs/" + v, Props: []string{"C02"}, Monitors: allMons(), Bound: quickBound(v == latest),
 			Init: func(w *mc.World) {
 				s := w.Svc
 				s.Model("test.a", "k1", ref("test.x"))
